@@ -444,6 +444,12 @@ func runC05(r *R) {
 					break
 				}
 			}
+			for _, e := range rt.log.Snapshot() {
+				if e.Kind == "shoot-in" && e.AfterClose {
+					r.Fail("gun-used-after-close", "pool %d: instance %d was asked to shoot with a gun that had already been closed; %s", pi, e.Inst, desc)
+					break
+				}
+			}
 			if rt.spec.Closable {
 				closes := map[any]int{}
 				bound := map[any]bool{}
